@@ -7,7 +7,7 @@
 //!     defines  `;`-separated `namehex:T` | `namehex:F` | `namehex:I<signed decimal>`          (may be empty)
 //!     files    `;`-separated `namehex=contenthex`
 //!   answer `A <ok|err> E=<top-level Error messages> M=<top-level messages> out=<0|1> err=<AssemblyResult.error 0|1>
-//!             print=<ok|panic> it=<iterations|-> hook=<0|1>`
+//!             print=<ok|panic> it=<iterations|-> hook=<0|1> K=<which error sites spoke, coverage only>`
 //!          ok/err = whether `output` is Some.  print = print_all of the whole report into a buffer.
 //!
 //! `D <argv hex;hex;..> <files> <faults>`                                 the private driver (`driver::drive`) on a mock
@@ -16,7 +16,7 @@
 //!              fails; each failure reports an error first, as FileServerReal does                 (may be empty)
 //!   answer `D <OK|ERR> E= M= out= err= W=<namehex:length:ok|fail;..> print=<ok|panic> hook=`
 //!
-//! `PANIC` when the call panics, `TIMEOUT` when it does not return within VH_TIMEOUT_MS (default 10000).  Each case runs
+//! `PANIC at=<hex of file:line>` when the call panics, `TIMEOUT` when it does not return within VH_TIMEOUT_MS (default 10000).  Each case runs
 //! on its own thread with the main thread's usual 8 MiB of stack; a stack overflow kills the process (the caller sees
 //! CRASH and re-runs the case alone).
 //! The driver prints with println!: run this binary with fd 1 redirected and `VH_ANS_FD3=1`, answers then go to fd 3.
@@ -48,6 +48,22 @@ fn add_files(fs: &mut util::FileServerMock, field: &str) {
         let data = unhex_bytes(it.next().unwrap_or(""));
         fs.add(name, data);
     }
+}
+
+/// which push-and-continue / accumulation sites spoke (coverage only, never compared): a = assertion failed,
+/// c = did not converge, u = unused define, n = no match, f = failed to resolve, o = anything else
+fn kinds(report: &diagn::Report) -> String {
+    let mut seen = std::collections::BTreeSet::new();
+    for m in report.verif_messages() {
+        if !matches!(m.kind, diagn::MessageKind::Error) {
+            continue;
+        }
+        let d = &m.descr;
+        seen.insert(if d.contains("assertion failed") { 'a' } else if d.contains("did not converge") { 'c' }
+            else if d.contains("unused define") { 'u' } else if d.contains("no match") { 'n' }
+            else if d.contains("failed to resolve") { 'f' } else { 'o' });
+    }
+    seen.into_iter().collect()
 }
 
 /// (errors, messages, hook present)
@@ -100,15 +116,15 @@ fn library(f: &[String]) -> String {
     let mut report = diagn::Report::new();
     let r = guarded(|| asm::assemble(&mut report, &opts, &mut fs, &[entry]));
     match r {
-        None => "PANIC".to_string(),
+        None => panic_answer(),
         Some(a) => {
             let (e, m, hook) = count(&report);
-            format!("A\t{}\tE={}\tM={}\tout={}\terr={}\tprint={}\tit={}\thook={}",
+            format!("A\t{}\tE={}\tM={}\tout={}\terr={}\tprint={}\tit={}\thook={}\tK={}",
                 if a.output.is_some() { "ok" } else { "err" }, e, m,
                 if a.output.is_some() { 1 } else { 0 }, if a.error { 1 } else { 0 },
                 printable(&report, &fs),
                 a.iterations_taken.map(|n| n.to_string()).unwrap_or("-".to_string()),
-                if hook { 1 } else { 0 })
+                if hook { 1 } else { 0 }, kinds(&report))
         }
     }
 }
@@ -181,16 +197,29 @@ fn through_driver(f: &[String]) -> String {
     let writes = fs.writes.iter().map(|(n, l, ok)| format!("{}:{}:{}", hex(n), l, if *ok { "ok" } else { "fail" })).collect::<Vec<_>>().join(";");
     let (e, m, hook) = count(&report);
     let (status, out, err) = match &r {
-        None => return format!("PANIC\tW={}", writes),
+        None => return format!("{}\tW={}", panic_answer(), writes),
         Some(Ok(a)) => ("OK", a.output.is_some(), a.error),
         Some(Err(())) => ("ERR", false, true),
     };
-    format!("D\t{}\tE={}\tM={}\tout={}\terr={}\tW={}\tprint={}\thook={}", status, e, m,
-        if out { 1 } else { 0 }, if err { 1 } else { 0 }, writes, printable(&report, &fs), if hook { 1 } else { 0 })
+    format!("D\t{}\tE={}\tM={}\tout={}\terr={}\tW={}\tprint={}\thook={}\tK={}", status, e, m,
+        if out { 1 } else { 0 }, if err { 1 } else { 0 }, writes, printable(&report, &fs), if hook { 1 } else { 0 }, kinds(&report))
+}
+
+/// where the last panic happened (`file:line`), for the report only
+static LAST_PANIC: std::sync::Mutex<String> = std::sync::Mutex::new(String::new());
+
+fn panic_answer() -> String {
+    let at = LAST_PANIC.lock().map(|s| s.clone()).unwrap_or_default();
+    format!("PANIC\tat={}", hex(&at))
 }
 
 fn main() {
-    quiet_panics();
+    std::panic::set_hook(Box::new(|info| {
+        let at = info.location().map(|l| format!("{}:{}", l.file(), l.line())).unwrap_or_default();
+        if let Ok(mut s) = LAST_PANIC.lock() {
+            *s = at;
+        }
+    }));
     let timeout_ms: u64 = std::env::var("VH_TIMEOUT_MS").ok().and_then(|s| s.parse().ok()).unwrap_or(10000);
     let mut answers: Box<dyn Write> = if std::env::var("VH_ANS_FD3").is_ok() {
         use std::os::unix::io::FromRawFd;
@@ -211,8 +240,8 @@ fn main() {
         let (tx, rx) = std::sync::mpsc::channel();
         let spawned = std::thread::Builder::new().stack_size(8 << 20).spawn(move || {
             let ans = match fields[0].as_str() {
-                "A" if fields.len() >= 5 => guarded(|| library(&fields)).unwrap_or("PANIC".to_string()),
-                "D" if fields.len() >= 2 => guarded(|| through_driver(&fields)).unwrap_or("PANIC".to_string()),
+                "A" if fields.len() >= 5 => guarded(|| library(&fields)).unwrap_or_else(panic_answer),
+                "D" if fields.len() >= 2 => guarded(|| through_driver(&fields)).unwrap_or_else(panic_answer),
                 _ => "?".to_string(),
             };
             let _ = tx.send(ans);
